@@ -30,6 +30,7 @@ RULE = (
     ' Also: histories with override from another input, an absolutised index.wtml written next to index_rel.wtml, interrupted first run'
     's, and TOAST pyramids with two-digit level numbers.'
     ' Round 8: every format in toasty.image.SUPPORTED_FORMATS; history steps in which tile_fits fails before writing any tile (missing input), followed by reuse.'
+    ' Round 9: a quarter of the tile_fits histories use an output directory whose name contains `$NAME` (NAME set in the environment).'
 )
 ASSUMPTIONS = ["WWT template convention: {1}=level, {2}=x, {3}=y", "HiPS, AstroPix/Djangoplicity network sources and Azure stores are not covered"]
 EXHAUSTIVE = {"quick": "template expansion for all positions to depth 6, both schemes", "thorough": "template expansion for all positions to depth 6, both schemes, all four formats"}
@@ -447,6 +448,11 @@ def case_history(spec, workdir):
         paths = [fitsgen.write_piece(os.path.join(ind, "t.fits"), m, (0, 0, 80, 60), (40, 30), scale=sc, crval=(R.uniform(0, 360), R.uniform(-60, 60)), bottoms_up=True)]
         kw = dict(tiling_method=TilingMethod.TOAST)
     out = os.path.join(workdir, "out") if (R.random() < 0.7 or "override_other" in spec["seq"] or spec["seq"][0] == "failed_early") else None
+    if out is not None and spec["seed"] % 4 == 0:
+        # an output directory whose NAME contains a `$` and the name of a variable that happens to be set ('$' is an ordinary
+        # character in a POSIX file name): it is that directory, literally
+        os.environ["TILESX"] = os.path.join(workdir, "elsewhere")
+        out = os.path.join(workdir, "$TILESX-out")
     probs = []
     instr_mp.install("natural", spec["seed"])
     calls = 0
@@ -532,6 +538,9 @@ def case_history(spec, workdir):
         if b is None:
             probs.append(("builder-vs-wtml:" + ("reuse" if step == "repeat" else step), "call %d (%s) returned no Builder" % (calls, step)))
             continue
+        if not os.path.exists(os.path.join(out, "index_rel.wtml")):
+            probs.append(("no-wtml-in-returned-dir", "call %d (%s): there is no index_rel.wtml in the directory tile_fits returned (%s)" % (calls, step, os.path.basename(out))))
+            break
         p = []
         builder_vs_wtml(b, out, p, "call %d (%s)" % (calls, step))
         probs += [(k + ":" + ("reuse" if step == "repeat" else step), t) for k, t in p]
